@@ -154,6 +154,12 @@ func Programs08(tier string) []Program {
 			}
 		}
 	}
+	// two pure reads do conflict where state is built lazily on the first access: first lookups
+	// by key, offset and time on segments whose index and mapping are not loaded yet
+	for _, pr := range [][2]string{{"GetByKey:1", "GetByKey:1"}, {"GetByKey:0", "GetByKey:1"}, {"GetByKey:1", "ConsumeByKey:1,-2,40"}, {"ConsumeByKey:0,-2,40", "ConsumeByKey:1,-2,40"},
+		{"Get:3", "Get:2"}, {"Get:3", "Consume:2,40"}, {"Get:2", fmt.Sprintf("GetByTime:%d", t1+2)}, {"GetByKey:1", "Get:3"}, {"Stat", "Get:3"}} {
+		add(Program{Cfg: cfgBoth, Init: inits[2].init, Threads: [][]string{{pr[0]}, {pr[1]}}})
+	}
 	// two readers that load the same unloaded segment at the same time, and a GC that may unload it
 	for _, pr := range [][2]string{{"Get:3", "Get:2"}, {"Get:3", "Get:3"}, {"Get:3", "Consume:2,40"}, {"Consume:2,40", "Consume:3,40"}, {"GetByKey:1", "Get:2"}} {
 		add(Program{Cfg: cfgBoth, Init: inits[2].init, Threads: [][]string{{pr[0]}, {pr[1]}, {"GC:0"}}})
